@@ -10,9 +10,12 @@ is subscribed afterwards.  Oracle-only families: harness/relcases.py (sources
 that emit inside subscribe(), tail stages, raising subscribers) and
 harness/c02_overlap.py (ONE operator observable subscribed 2-3 times with
 overlapping lifetimes: what a terminated subscriber opened is released, what a
-running one opened is not)."""
+running one opened is not) and harness/c02_derived.py (callbacks whose observable is DERIVED FROM the group /
+window / element observable they were given, or from the pipeline's own source; terminal from a downstream
+take/first/take_while/take_until or dispose while such derived observables are open; virtual time)."""
 import random
 
+import c02_derived
 import c02_overlap
 import comb_oracle
 import comb_table
@@ -164,6 +167,11 @@ def run(chk):
     # observable object is subscribed 2-3 times, earlier subscribers end while later ones run
     extra["overlap"], s = c02_overlap.family(chk, "C02", 20 if q else 400, random.Random(f"C02-overlap-{chk.seed}"))
     nt_extra += len(s)
+    # user-made observables DERIVED FROM the operator's own inner observable (harness/c02_derived.py; own random
+    # stream, virtual time): duration = grp.pipe(skip(n)) etc., terminal from downstream / dispose while they are open
+    extra["derived"], s = c02_derived.family(chk, "C02", 1500 if q else 25000,
+                                             random.Random(f"C02-derived-{chk.seed}"))
+    nt_extra += len(s)
     chk.cov["distinct_nontrivial"] = nt_multi + len(nt) + nt_timed + nt_extra
     chk.cov["input_distribution"] = {"multi_source": dist, "single_source_per_operator": per_op,
                                      "time_based_release_mode": timed_dist, "oracle_only_families": extra}
@@ -193,21 +201,45 @@ def run(chk):
                        "step of a subscriber's terminal / dispose and ever after everything THAT subscriber opened "
                        "is disposed, no step directed at one subscriber disposes a subscription of another that "
                        "is still running, nothing is open at the end, nothing escapes; non-trivial = a subscriber "
-                       "ended while another one was running and the oracle held")
+                       "ended while another one was running and the oracle held.  `derived` (harness/c02_derived.py, one "
+                       "seed per case, TestScheduler, failing cases shrunk and stored verbatim): 1-3 sources (reactivex."
+                       "testing hot/cold observables and hand-written probes that keep their observers), main source "
+                       "4-10 elements, 25% with a terminal; pipeline shapes: group_by_until(duration = D(group)) followed "
+                       "by a flattening consumer (flat_map/switch_map/concat_map/flat_map_latest with mapper D(group), "
+                       "merge_all/switch_latest/concat_all), by nothing (the subscriber subscribes all / every other / "
+                       "none of the groups and unsubscribes them at its terminal / dispose), or by delay_with_mapper/"
+                       "throttle_with_mapper/timeout_with_mapper(D(group)); the same consumers behind group_by/"
+                       "window_when/window_toggle/window/window_with_count/group_join (D(window)); value-level join/"
+                       "buffer_when/buffer_toggle/*_with_mapper/flat_map/switch_map/concat_map whose callback derives "
+                       "from the pipeline's own main source; D = 1-2 of skip(n)/filter/skip_while/debounce/delay/"
+                       "ignore_elements/take_last/count/map/distinct_until_changed/pairwise/buffer_with_count/"
+                       "element_at_or_default (15%: merged with / cut by another source; 12%: never()/timer, not derived); "
+                       "then take(1..4) 25%, first() 10%, take_while 15%, take_until(source) 12%, "
+                       "take_until_with_time 8%, else dispose at a random instant; judged: every subscription on a "
+                       "source and on a callback-made observable ends, at an instant <= T (terminal or dispose), no "
+                       "observer left, nothing subscribed after T, nothing escapes / hangs; `captured` shape (closing "
+                       "derived from the ref-counted window the SUBSCRIBER was handed) is run but not judged; "
+                       "non-trivial = a derived observable was open when the terminal came from downstream (or at "
+                       "dispose) and the oracle held")
     return chk.finish(trusted_extra=["runner assumption: an operator's disposable holds every subscription/timer it "
                                      "opened (Ops/Multi.v) -- this run compares unsubscribe instants operator by "
                                      "operator", "harness/k2m.py, harness/k2.py drivers",
                                      "harness/c02_overlap.py: a probe subscription is attributed to the subscriber "
                                      "the running step is directed at (the one subscribing / disposing / owning the "
-                                     "source subscription an event is delivered to)"],
-                      assumptions=["group/window observables handed to the subscriber (ref-counted release) are "
-                                   "covered in C18/C19; the timing rules of time-based operators in C15-C17 (their release is "
+                                     "source subscription an event is delivered to)",
+                                     "harness/c02_derived.py: reactivex.testing TestScheduler / hot / cold observables "
+                                     "(their `subscriptions` lists and `observers`) as the log of the `derived` family"],
+                      assumptions=["group/window observables handed to the subscriber (ref-counted release): here only in the "
+                                   "`derived` family (subscriber unsubscribes them at its terminal / dispose), "
+                                   "otherwise in C18/C19; the timing rules of time-based operators in C15-C17 (their release is "
                                    "checked here too)"])
 
 
 def replay(chk, path):
     import json
     d = json.load(open(path))
+    if c02_derived.is_replay(d):
+        return c02_derived.replay_main("C02", path)
     if c02_overlap.is_replay(d):
         return c02_overlap.replay_main("C02", path)
     if relcases.is_replay(d):
